@@ -1385,10 +1385,10 @@ class TexArgs(list):
         self.all.remove(item)
         super().remove(item)
 
-    def pop(self, i):
+    def pop(self, i=-1):
         """Pop argument object at provided index.
 
-        :param int i: Index to pop from the list
+        :param int i: Index to pop from the list (default: the last argument)
 
         >>> arguments = TexArgs([BraceGroup('arg0'), '[arg2]', '{arg3}'])
         >>> arguments.pop(1)
